@@ -60,7 +60,8 @@ def split_items(draw, items, depth=0, counter=None, dirs=('', 'inc_a', 'inc_b'))
         if not ok or depth_c != 0:
             continue
         counter[0] += 1
-        fname = f'part{counter[0]}.asm'
+        # some names end in the main file's name
+        fname = draw(st.sampled_from(['part{}.asm', 'part{}.asm', 'part{}main.asm', 'do{}.main.asm'])).format(counter[0])
         d = draw(st.sampled_from(dirs))
         sub = chunk
         if depth < 2 and len(chunk) >= 2 and draw(st.booleans()):
@@ -77,7 +78,7 @@ def _cases(draw, tier):
         cfg = draw(G.layout_isa(zones=False, blocks=True))
         b, feats = G.general_program(draw, cfg, max_steps=24, disable=NOLOCAL)
         split = split_items(draw, b.items)
-        return {'kind': kind, 'isa': cfg, 'flat': b.items, 'split': split, 'lo': b.lo,
+        return {'kind': kind, 'isa': cfg, 'flat': b.items, 'split': split, 'lo': b.lo, 'links': draw(st.integers(0, 7)),
                 'idirs': draw(st.sampled_from([['inc_a', 'inc_b'], ['inc_b', 'inc_a', 'inc_a'], ['inc_a', 'inc_b', 'inc_c']]))}
     if kind == 'model':
         cfg = draw(G.layout_isa(zones=True, blocks=True))
@@ -87,7 +88,7 @@ def _cases(draw, tier):
             if it['t'] == 'include':
                 d = draw(st.sampled_from(['', 'inc_a', 'inc_b']))
                 it['path'] = (d + '/' if d else '') + it['file']
-        return {'kind': kind, 'isa': cfg, 'items': b.items, 'lo': b.lo, 'feats': sorted(feats),
+        return {'kind': kind, 'isa': cfg, 'items': b.items, 'lo': b.lo, 'feats': sorted(feats), 'links': draw(st.integers(0, 7)),
                 'idirs': draw(st.sampled_from([['inc_a', 'inc_b'], ['inc_b', 'inc_a', 'inc_b']]))}
     cfg = draw(G.layout_isa(zones=False))
     why = draw(st.sampled_from(['twice-direct', 'twice-nested', 'diamond', 'missing', 'ambiguous', 'self',
@@ -130,7 +131,8 @@ def _cases(draw, tier):
         items = [dict(byte), copy.deepcopy(common), dict(byte)]
     # surround with a few ordinary lines
     pre = [{'t': 'label', 'name': 'start'}, {'t': 'instr', 'mn': 'nop', 'ops': []}][:draw(st.integers(0, 2))]
-    return {'kind': 'reject', 'isa': cfg, 'items': pre + items, 'why': why, 'idirs': ['inc_a', 'inc_b']}
+    return {'kind': 'reject', 'isa': cfg, 'items': pre + items, 'why': why, 'idirs': ['inc_a', 'inc_b'],
+            'links': draw(st.sampled_from([0, 0, 1]))}
 
 
 def strategy(tier):
@@ -212,6 +214,18 @@ def boundary_features(items):
     return feats
 
 
+def _link_some(files, links):
+    """Some of the included files become symbolic links to a file stored elsewhere (bit i of `links` decides the
+    i-th file): a link is a name like any other."""
+    linked = 0
+    for i, k in enumerate(sorted(k for k in files if k.endswith('.asm') and k != 'main.asm')):
+        if links >> (i % 3) & 1:
+            files[f'store/real{i}.txt'] = files[k]
+            files[k] = ('symlink', f'store/real{i}.txt')
+            linked += 1
+    return linked
+
+
 def execute(case, ctx):
     cfg = isagen.fix_int_keys(copy.deepcopy(case['isa']))
     isa = R.Isa(cfg)
@@ -224,10 +238,15 @@ def execute(case, ctx):
         for f in (flat, split):
             f[fname] = text
             f.update(extra_dirs)
+        linked = _link_some(split, case.get('links', 0))
         argv = _argv(fname, case['idirs'], case['lo'])
         r1 = runner.run_forked(argv, flat)
         r2 = runner.run_forked(argv, split)
         feats = boundary_features(case['split'])
+        if linked:
+            feats.add('included-through-a-symbolic-link')
+        if any(k.endswith('main.asm') and k != 'main.asm' for k in split):
+            feats.add('included-name-ends-in-main-file-name')
         detail = {'unsplit': flat['main.asm'], 'split': {k: v for k, v in split.items() if k.endswith('.asm')},
                   'argv': argv, 'run_unsplit': r1.brief(), 'run_split': r2.brief(), 'features': sorted(feats)}
         findings = []
@@ -254,6 +273,9 @@ def execute(case, ctx):
             files['common.asm'] = '.byte 9\n'              # next to main.asm, and in inc_a
         if why == 'ambiguous-copy-next-to-nested-includer':
             files['inc_b/common.asm'] = '.byte 9\n'        # next to outer.asm, and in inc_a
+        if case.get('links') and why in ('twice-direct', 'twice-nested', 'diamond'):
+            _link_some(files, 7)
+            why += '/through-symbolic-links'
         argv = _argv(fname, case['idirs'])
         res = runner.run_forked(argv, files)
         detail = {'sources': {k: v for k, v in files.items() if k.endswith('.asm')}, 'argv': argv, 'why': why, 'run': res.brief()}
@@ -275,9 +297,12 @@ def execute(case, ctx):
             lo, hi, want = case['lo'], case['lo'] + 8, None
     except R.Unspecified as u:
         return Outcome(classes=['unspecified:' + str(u).split(':')[0]], evals=0, excluded=['unspecified: ' + str(u).split(':')[0]])
+    linked = _link_some(files, case.get('links', 0))
     argv = _argv(fname, case['idirs'], lo, hi)
     res = runner.run_forked(argv, files)
     feats = boundary_features(case['items'])
+    if linked:
+        feats.add('included-through-a-symbolic-link')
     detail = {'sources': {k: v for k, v in files.items() if k.endswith('.asm')}, 'argv': argv, 'features': sorted(feats),
               'model': verdict if verdict == 'accepted' else 'rejected: ' + lay, 'run': res.brief(),
               'general': cfg['general'], 'predefined': cfg.get('predefined')}
